@@ -1,6 +1,8 @@
 import Proofs.StorageConc
 import Proofs.StorageChecker
 import Proofs.StorageAliasSim
+import Proofs.StorageKeys
+import Proofs.StorageSubmit
 
 /-!
 # C13 — storage keeps what it was given: unique ids, read-your-writes, isolation
@@ -409,6 +411,146 @@ theorem C13_memoised_load_witness :
      Val.beq (RVal.erase ((aget "0.0" M3.w.jobs).getD (.atom .none))) (jobRec [] .none) = true) := by
   decide +kernel
 
+
+/-! ## keys of any hashable type
+
+`Storage` declares keys and identifiers `Hashable`.  The model keeps string keys; a key of another type enters it through
+`Key.render` (`Model/Storage.lean`).  `Key` is the key up to the equality a Python dict uses (`1`, `1.0`, `True` are one key). -/
+
+/-- **C13 (the rendering of keys is injective)** — two keys with the same text are the same key, so `1` / `"1"`, `None` /
+`"None"`, `(0, 1)` / `"(0, 1)"`, `2.5` / `"2.5"`, `""` … are different keys of the model, and every theorem above speaks about
+them as about any two different strings; a str that does not start with `'#'` (every key the library uses) is its own text. -/
+theorem C13_key_rendering_injective :
+    (∀ k k' : Key, k.render = k'.render → k = k') ∧
+    (∀ s : String, (∀ r, s.toList ≠ '#' :: r) → (Key.atom (.str s)).render = s) :=
+  ⟨fun _ _ h => Key.render_inj h, Key.render_plain⟩
+
+/-- **C13 (a store under one key is no write to a key of another type that prints alike)** — for two different keys (of any
+types) a `store_search_value` / `store_job_metadata` / `store_job` under the one is not a write to the location of the
+other: by `C13_ryw_search` / `C13_ryw_metadata` / `C13_ryw` the other keeps being read back, by `C13_isolation` it is not
+changed. -/
+theorem C13_typed_keys_isolated (k k' : Key) (hne : k ≠ k') (sid jid : String) (v : Val) :
+    (Op.storeSearchValue sid k'.render v).writes (.search sid k.render) = false ∧
+    (Op.storeJobMetadata jid k'.render v).writes (.mdata jid k.render) = false ∧
+    (Op.storeJob jid k'.render v).writes (.job jid k.render) = false := by
+  have h : (k'.render == k.render) = false := by
+    simp only [beq_eq_false_iff_ne, ne_eq]
+    exact fun e => hne (Key.render_inj e).symm
+  simp [Op.writes, h]
+
+example : (Key.atom (.num 1)).render = "#n1/1" ∧ (Key.atom (.str "1")).render = "1" ∧ (Key.atom .none).render = "#N" ∧
+    (Key.atom (.str "#N")).render = "#s#N" ∧ (Key.tuple [.num 0, .str "#a"]).render = "#t5:#n0/14:#s#a" ∧
+    (Key.atom (.num (-5/2))).render = "#n-5/2" := by decide +kernel
+example : Key.atom (.num 1) ≠ Key.atom (.str "1") := by decide
+/-- equality of two answers that are values or errors -/
+def outIs : Out → Out → Bool
+  | .val a, .val b => Val.beq a b
+  | .error a, .error b => a == b
+  | .none, .none => true
+  | _, _ => false
+
+/-- `1` and `"1"` as keys of one search: two values; `0` is absent (`KeyError`) -/
+example : (((run Store.init [.createSearch, .storeSearchValue "0" (Key.atom (.num 1)).render (.str "int"),
+      .storeSearchValue "0" (Key.atom (.str "1")).render (.str "str"),
+      .loadSearchValue "0" (Key.atom (.num 1)).render, .loadSearchValue "0" (Key.atom (.str "1")).render,
+      .loadSearchValue "0" (Key.atom (.num 0)).render]).2.drop 3).zip
+        [Out.val (.str "int"), Out.val (.str "str"), Out.error .keyError]).all (fun p => outIs p.1 p.2) = true := by
+  decide +kernel
+
+/-! ## several client handles on one job
+
+`Job.status` / `RunningJob.status` (`viewStatus`, `setStatus` in `Model/Storage.lean`): a handle keeps no status of its own. -/
+
+theorem run_storeJobStatus (s : Store) (h1 h2 : List Op) (jid : String) (v : Val) :
+    run s (h1 ++ .storeJobStatus jid v :: h2) = run s (h1 ++ .storeJob jid "status" v :: h2) := by
+  simp only [run_append, run_cons]; rfl
+
+/-- **C13 (every handle reads the last status stored, through whichever handle it was stored)** — a status `i ∈ 0…4` is
+stored for job `jid` through ANY route (`handle.status = …` on any `Job` object = `store_job_status` = `store_job(…, "status", …)`);
+whatever calls follow that do not store that job's status (through any route), the status read through ANY handle (any `Job`
+or `RunningJob` object: `viewStatus` does not depend on the handle) is `i` — also when an earlier status was DONE / CANCELLED. -/
+theorem C13_status_handles_agree (h1 h2 : List Op) (hin1 : InScope h1) (hin2 : InScope h2) (jid : String) (i : Int)
+    (hi : 0 ≤ i ∧ i ≤ 4)
+    (hok : (setStatus (run Store.init h1).1 jid i).2 = .none)
+    (hno : ∀ op ∈ h2, op.writes (.job jid "status") = false) :
+    viewStatus (run Store.init (h1 ++ .storeJobStatus jid (.int i) :: h2)).1 jid = .val (.int i) ∧
+    viewStatus (run Store.init (h1 ++ .storeJob jid "status" (.int i) :: h2)).1 jid = .val (.int i) := by
+  have key : viewStatus (run Store.init (h1 ++ .storeJob jid "status" (.int i) :: h2)).1 jid = .val (.int i) := by
+    obtain ⟨kvs, l1, l2⟩ := C13_ryw h1 h2 hin1 hin2 jid "status" (.int i) hok hno
+    have l3 := (C13_store_variants (run Store.init (h1 ++ .storeJob jid "status" (.int i) :: h2)).1 jid .none .none .none).2.2.2 kvs l1
+    simp only [l2] at l3
+    simp [viewStatus, l3, statusOfVal, hi.1, hi.2]
+  exact ⟨by rw [run_storeJobStatus]; exact key, key⟩
+
+/-- **C13 (a handle that remembers a final status breaks the property)** — handle `B` on job `0.0` reads DONE (stored through
+another handle); the status is then stored as READY through the other handle; `B`, answering from memory, still says DONE
+while every stateless handle (and `load_job_status`) says READY. -/
+theorem C13_cached_status_witness :
+    let s0 := (run Store.init [.createSearch, .createJob "0"]).1
+    let s1 := (setStatus s0 "0.0" 2).1
+    let B : CachingHandle := ⟨"0.0", none⟩
+    let B1 := (B.get s1).1
+    let s2 := (setStatus s1 "0.0" 0).1
+    outIs (B1.get s2).2 (.val (.int 2)) = true ∧ outIs (viewStatus s2 "0.0") (.val (.int 0)) = true ∧
+    outIs (step s2 (.loadJobStatus "0.0")).2 (.val (.int 0)) = true := by
+  decide +kernel
+
+def demoStatus : List Op := [.createSearch, .createJob "0", .storeJobStatus "0.0" (.int 2)]
+example : InScope demoStatus := by intro op h; simp [demoStatus] at h; rcases h with rfl | rfl | rfl <;> rfl
+example : isNoneOut (setStatus (run Store.init demoStatus).1 "0.0" 0).2 = true := by decide +kernel
+example : (Op.loadJob "0.0").writes (.job "0.0" "status") = false := rfl
+
+/-! ## a third party: the running job and its parameters -/
+
+/-- **C13 (the parameters a run-function edits are not the inputs the storage holds)** — after any history that kept the
+discipline, the evaluator submits a configuration `cfg` for job `jid` (`World.submit`: one deep copy becomes the job's
+parameters `p`, another one is stored as `{"args": (copy,), "kwargs": None}`).  Then (1) the world keeps its invariant and the
+job table moves, on values, exactly as `store_job(jid, "in", {"args": (cfg,), "kwargs": None})` says; (2) every object of `p`
+is outside the storage: the run-function may edit every container of its parameters in place within the discipline, now and
+after whatever follows, as long as it does not hand the object to the storage — so by `C13_alias_step` /
+`C13_caller_edits_invisible` no load is changed by what the run-function does to its parameters. -/
+theorem C13_running_job_parameters_private (ops : List AOp) (hok : OkRun World.init ops) (jid : String) (cfg : RVal) :
+    let W := (arun World.init ops).1
+    let p := (submitObjs W.next cfg).1
+    let inn := (submitObjs W.next cfg).2.1
+    let W1 := (W.submit jid cfg).1
+    Inv W1 ∧
+    RVal.eraseKV W1.jobs = (pstep (RVal.eraseKV W.jobs) (.storeJob jid "in" inn)).1 ∧
+    inn.erase = .dict [("args", .tuple [cfg.erase]), ("kwargs", .none)] ∧ p.erase = cfg.erase ∧
+    (∀ a ∈ p.addrs, ∀ e, (AOp.callerEdit a e).ok W1) ∧
+    (∀ a ∈ p.addrs, ∀ more : List AOp, (∀ op ∈ more, a ∉ op.passes) → ∀ e, (AOp.callerEdit a e).ok (arun W1 more).1) := by
+  intro W p inn W1
+  have hW : Inv W := (alias_run ops World.init Inv_init hok).1
+  obtain ⟨hn, _, _, _, _, he1, he2⟩ := submitObjs_facts W.next cfg
+  obtain ⟨i1, i2, _⟩ := alias_step (W.withParams cfg) (Inv_withParams hW cfg) _ (submit_store_ok hW jid cfg)
+  obtain ⟨_, f2, f3⟩ := fresh_private W1 p hn (submit_params_outside hW jid cfg)
+  exact ⟨i1, i2, he2, he1, f2, f3⟩
+
+/-- the value of a job's inputs as `load_job` shows it -/
+def inOf (o : AOut) : Val :=
+  match outVal o with
+  | .dict kv => (aget "in" kv).getD (.str "<no in>")
+  | v => v
+
+/-- **C13 (an evaluator that stores the job's own copy breaks the property)** — the configuration `{"x": 2}` is submitted for
+job `0.0`; the run-function does `job["x"] = 20`.  (a) with one deep copy shared by the job and the storage (`submitShared`)
+`load_job("0.0")["in"]` now shows `x = 20` although the last inputs stored were `x = 2` and nothing was stored since; (b) with
+the two copies of `World.submit` the same edit changes nothing. -/
+theorem C13_shared_submit_witness :
+    let cfg : RVal := .dict 90 [("x", .atom (.int 2))]
+    let W0 := (arun World.init [.newJob "0.0"]).1
+    (let r := W0.submitShared "0.0" cfg
+     let a := match r.2.1 with | .dict a _ => a | _ => 0
+     let W3 := r.1.editAll a (.setKey "x" (.atom (.int 20)))
+     Val.beq (inOf (astep W3 (.loadJob "0.0")).2) (.dict [("args", .tuple [.dict [("x", .int 20)]]), ("kwargs", .none)]) = true) ∧
+    (let W2 := (W0.submit "0.0" cfg).1
+     let a := match (submitObjs W0.next cfg).1 with | .dict a _ => a | _ => 0
+     let W3 := W2.editAll a (.setKey "x" (.atom (.int 20)))
+     Val.beq (inOf (astep W3 (.loadJob "0.0")).2) (.dict [("args", .tuple [.dict [("x", .int 2)]]), ("kwargs", .none)]) = true ∧
+     Val.beq (RVal.erase ((W3.held.head?).getD (.atom .none))) (.dict [("x", .int 20)]) = true) := by
+  decide +kernel
+
+example : OkRun World.init [.newJob "0.0", .newJob "0.1", .storeMeta "0.1" "k" (.list 30 [])] := by decide +kernel
 
 /-! ## non-vacuity -/
 
